@@ -1,7 +1,8 @@
 SPECIFICATION TSpec
 CONSTANTS
   MaxBytes = 1
-  Cuts = {"origin", "transit", "stall"}
+  Cuts = {"origin", "transit", "stall", "sibling"}
+  AcceptorCloseKillsSocket = FALSE
   ForwarderWaitsOnNode = FALSE
   AcceptLeavesDeadline = FALSE
   MaxNotices = 1000000
